@@ -181,6 +181,16 @@ def member_path(n):
     return None
 
 
+NONMUTATING = {"operator[]", "begin", "end", "cbegin", "cend", "rbegin", "rend", "at", "front", "back", "data", "size", "empty", "find",
+               "array", "matrix", "vector", "tensor", "slice", "reshape", "dims", "rows", "cols", "operator()", "segment", "transpose",
+               "get", "operator*", "operator->", "value", "count", "lower_bound", "upper_bound"}
+
+
+def is_accessor_call(x):
+    """non-const overloads of element/iterator accessors do not modify the container themselves"""
+    return callee(x).split("::")[-1] in NONMUTATING
+
+
 def writes_in(f, n):
     """yield (target_node, kind, site_node) for writes syntactically inside n:
     kind in {'assign', 'incdec', 'nonconst-call', 'byref-arg'}"""
@@ -194,9 +204,9 @@ def writes_in(f, n):
             yield i[0], "incdec", x
             continue
         if x["k"] == "call":
-            if x.get("ck") == "mem" and not x.get("cconst") and not x.get("static") and x.get("c"):
+            if x.get("ck") == "mem" and not x.get("cconst") and not x.get("static") and x.get("c") and not is_accessor_call(x):
                 yield x["c"][0], "nonconst-call", x
-            elif x.get("ck") == "op" and x.get("memop") and not x.get("cconst") and x.get("c"):
+            elif x.get("ck") == "op" and x.get("memop") and not x.get("cconst") and x.get("c") and not is_accessor_call(x):
                 yield x["c"][0], "nonconst-call", x
             pk = x.get("pk", "")
             for j, a_ in enumerate(args(x)):
